@@ -25,7 +25,7 @@ var wrRole = map[string]int{"n": 0, "init": 1, "cond": 2, "post": 3, "body": 4, 
 
 type wrEdge struct {
 	src, field, dst int
-	start          bool
+	start           bool
 }
 
 // wrTarget decodes the right-hand side of an edge: role, role.start, or body.child[0] (the loop-variable node).
